@@ -385,8 +385,8 @@ func init() {
 		Title: "Admission validation is total, and what it accepts the data plane can apply",
 		Batches: []Batch{
 			{World: "gw", Profile: "c16-objects", Quick: 200, Thor: 12000, PerProc: 1, FaultFree: true},
-			{World: "rl", Profile: "c16l-nofault", Quick: 60, Thor: 3000, PerProc: 1, FaultFree: true},
-			{World: "rl", Profile: "c16l-apifaults", Quick: 140, Thor: 7000, PerProc: 1},
+			{World: "rl", Profile: "c16l-nofault", Quick: 200, Thor: 6000, PerProc: 1, FaultFree: true},
+			{World: "rl", Profile: "c16l-apifaults", Quick: 400, Thor: 10000, PerProc: 1},
 		},
 		Rule: "each run = 4-14 UpstreamCluster objects obtained from a valid template by 1-3 drawn mutations (endpoint strings with bad escapes/no scheme/mixed schemes/userinfo/spaces, client and serving key material empty/truncated/mismatched, every subset of the five flow-control members with nil/negative/MaxInt32 numbers and strategies, dangling subset/schema references, feature-gate strings, names), submitted as creates or as updates of an existing cluster through the real admission plugin; every admitted object is then applied by the real pipeline (store, informer, controller goroutine, ClusterInfo with its transports and probes) and by the limiter's store; distinct = distinct trace hash; non-trivial = at least one object admitted and one rejected. Profiles c16l-* (rl world): a real leading limiter replica (store API-backed write-through / periodic / in-memory) is handed 8-40 steps of new versions of 1-3 upstreams whose flow-control schemas are drawn from all member combinations and boundary values and filtered by the real validator (only accepted objects are stored), reports of an instance, clock advances and, in the fault profile, outages of the condition API (every call of the replica fails with a 500 while it lasts); after the faults stop and four retry periods of the handler the limiter's state of every upstream must equal what the latest valid object means and a report must be answered; a panic anywhere ends the run as a crash",
 		Real: gwReal, Stub: gwStub, Assume: append([]string{"the deciding power is seeded object generation; the simulation adds that 'can be applied' is judged by the real pipeline including the controller's sync goroutine (panics there are recorded through apimachinery's panic handlers instead of killing the worker)", "the limiter server's UpstreamConditionHandler under leadership is exercised in the rl world; here its store-level consumers run"}, gwAssume...),
